@@ -16,21 +16,31 @@ THEOREMS = [
     ("EG.props.C04", "C04_refuted_wr_zero_total"),
     ("EG.props.C04", "C04_replace_choice_in_loaded_list"),
     ("EG.props.C04", "C04_replace_list_current_at_load"),
+    ("EG.props.C04", "C04_attempt_uses_current_list"),
+    ("EG.props.C04", "C04_watch_last_report"),
     ("EG.props.C04", "C04_checker_accepts_balanced"),
 ]
+_FILES = ["harness/proxy/zz_verif_c04_test.go", "harness/proxy/zz_verif_c04_watch_test.go"]
 HARNESSES = [
-    dict(name="seq", pkg="pkg/filters/proxy", files=["harness/proxy/zz_verif_c04_test.go"],
+    dict(name="seq", pkg="pkg/filters/proxy", files=_FILES,
          run="TestVerifC04", groups=["lb", "pool"], timeout=600, share=1.0),
-    dict(name="conc", pkg="pkg/filters/proxy", files=["harness/proxy/zz_verif_c04_test.go"],
+    dict(name="conc", pkg="pkg/filters/proxy", files=_FILES,
          run="TestVerifC04Conc", groups=["rrc", "swap"], timeout=900, share=0.04, race=True),
+    dict(name="watch", pkg="pkg/filters/proxy", files=_FILES,
+         run="TestVerifC04Watch", groups=["watch", "retry"], timeout=900, share=0.2),
 ]
-GROUPS = {"lb": "(check_lb pinned)", "pool": "(check_pool pinned)", "rrc": "check_rrc", "swap": "check_swap"}
-EXPLAIN = {"lb": "(explain_lb pinned)", "pool": "(explain_pool pinned)", "rrc": "explain_rrc", "swap": "explain_swap"}
+GROUPS = {"lb": "(check_lb pinned)", "pool": "(check_pool pinned)", "rrc": "check_rrc", "swap": "check_swap",
+          "watch": "(check_watch pinned)", "retry": "(check_retry pinned)"}
+EXPLAIN = {"lb": "(explain_lb pinned)", "pool": "(explain_pool pinned)", "rrc": "explain_rrc", "swap": "explain_swap",
+           "watch": "(explain_watch pinned)", "retry": "(explain_retry pinned)"}
 CASES = {"quick": 600, "thorough": 12000}
 RULE = ("cases: lb = policy x weight vector (all zero / all positive / mixed / single / out of range) x request sequence "
         "(few distinct clients and header values, counter start incl. 2^32 and 2^63 boundaries); pool = Proxy built through "
         "filters.NewSpec, then useService(instance maps with tags/weights) interleaved with handle(); rrc = g goroutines x per "
-        "selections on one roundRobin balancer; swap = selections concurrent with list replacement. "
+        "selections on one roundRobin balancer; swap = selections concurrent with list replacement; "
+        "watch = real watchServers driven through the ServiceRegistry controller by a registry double whose content changes between the "
+        "initial listing, the watcher's priming listing and later events; retry = a retried request whose list is replaced while an "
+        "attempt is in flight. "
         "non-trivial = at least one selection; class = policy(1..5) + flags (empty list 8, one server 16 / discovery used 8, "
         "503 seen 16, panic seen 32, mixed weights or fallback to static 64, counter near 2^63 128); "
         "distinct = distinct (group, input) hashes among non-trivial cases")
@@ -44,7 +54,7 @@ ASSUMPTIONS = [
     "fewer than 2^63 selections on one round-robin balancer (int(counter) stays non-negative)",
     "rand.Intn(n) returns a value in [0, n)",
     "weights are non-negative for the zero-weight clause (schema minimum=0)",
-    "service discovery events reach the pool only through useService; the transport is stubbed (fnSendRequest)",
+    "the registry driver is an in-memory double behind the real ServiceRegistry controller; the transport is stubbed (fnSendRequest)",
 ]
 
 MANIFEST = dict(
@@ -116,7 +126,40 @@ def encode(c):
     if g == "swap":
         return Rec(w_expected=Z(i["g"] * i["per"]), w_total=Z(o["total"]), w_bad=Z(o["bad"]), w_panics=Z(o["panics"]),
                    w_lists=Z(len(i.get("lists") or [])))
+    if g == "watch":
+        reports = o.get("reports") or []
+        tail = []
+        picks = o.get("picks") or []
+        if o["valid"]:
+            if reports:
+                tail.append(C("OUse", _insts(reports[-1]), _srvlist(o.get("final"))))
+            for rq, out in zip(i.get("reqs") or [], picks):
+                tail.append(C("OReq", S(rq["hname"]), S(rq["hval"]), S(out["key"]), Z(out["draw"]), Z(out["status"]),
+                              S(out["result"]), S(out["target"])))
+            if len(picks) != len(i.get("reqs") or []) or len(o.get("points") or []) != 2 + len(i.get("steps") or []):
+                tail.append(C("OReq", S(""), S(""), S(""), Z(0), Z(-7), S("missing"), S("")))
+        return Rec(t_policy=S(i["policy"]), t_hkey=S(i["hkey"]), t_tags=L([S(t) for t in i.get("tags") or []]),
+                   t_static=L([T(S(static_url(k)), Z(w)) for k, w in enumerate(i.get("static") or [])]),
+                   t_valid=B(o["valid"]), t_reports=L([_insts(r) for r in reports]),
+                   t_points=L([T(Nat(pt["nrep"]), _srvlist(pt.get("list"))) for pt in o.get("points") or []]),
+                   t_tail=L(tail))
+    if g == "retry":
+        failing = [inst_url(x) for x in i.get("fail") or []]
+        if i.get("failstatic"):
+            failing += [static_url(k) for k in range(len(i.get("static") or []))]
+        rq = i["req"]
+        return Rec(y_policy=S(i["policy"]), y_hkey=S(i["hkey"]), y_tags=L([S(t) for t in i.get("tags") or []]),
+                   y_static=L([T(S(static_url(k)), Z(w)) for k, w in enumerate(i.get("static") or [])]),
+                   y_valid=B(o["valid"]), y_old=_insts(i.get("old")), y_new=_insts(i.get("new")),
+                   y_oldlist=_srvlist(o.get("oldlist")), y_newlist=_srvlist(o.get("newlist")),
+                   y_at=Z(i["at"]), y_max=Nat(i["max"]), y_failing=L([S(u) for u in failing]),
+                   y_hname=S(rq["hname"]), y_hval=S(rq["hval"]), y_key=S(o.get("key", "")),
+                   y_sends=L([S(u) for u in o.get("sends") or []]), y_status=Z(o["status"]), y_res=S(o["result"]))
     raise ValueError(g)
+
+
+def _insts(xs):
+    return L([Rec(i_url=S(inst_url(x["id"])), i_tags=L([S(t) for t in x.get("tags") or []]), i_w=Z(x["w"])) for x in xs or []])
 
 
 def distribution(cases):
@@ -147,6 +190,13 @@ def distribution(cases):
             d["selections"] += i["g"] * i["per"]
         elif g == "swap":
             d["selections"] += o["total"]
+        elif g == "watch":
+            d["reports"] = d.get("reports", 0) + len(o.get("reports") or [])
+            d["watch_after1"] = d.get("watch_after1", 0) + (i.get("after1") is not None)
+            d["selections"] += len(o.get("picks") or [])
+        elif g == "retry":
+            d["retry_sends"] = d.get("retry_sends", 0) + len(o.get("sends") or [])
+            d["retry_replaced"] = d.get("retry_replaced", 0) + bool(o.get("replaced"))
     return d
 
 
@@ -156,6 +206,26 @@ def signature(case, result):
 
 
 def shrink_candidates(inp, grp):
+    if grp == "watch":
+        for k in ("steps", "reqs"):
+            xs = inp.get(k) or []
+            for j in range(len(xs)):
+                cand = dict(inp)
+                cand[k] = xs[:j] + xs[j + 1:]
+                if k == "steps" or cand[k]:
+                    yield cand
+        for k in ("after2", "after1"):
+            if inp.get(k) is not None:
+                cand = dict(inp)
+                cand.pop(k)
+                yield cand
+        return
+    if grp == "retry":
+        if inp.get("max", 1) > 2:
+            cand = dict(inp)
+            cand["max"] = inp["max"] - 1
+            yield cand
+        return
     key = {"lb": "reqs", "pool": "ops"}.get(grp)
     if not key:
         return
